@@ -108,7 +108,9 @@ class TimeTicks(Integer):
         value: Union[timedelta, int, _SENTINEL_UNINITIALISED] = UNINITIALISED,
     ) -> None:
         if isinstance(value, timedelta):
-            value = int(value.total_seconds() * 100)
+            # one tick is a hundredth of a second; integer arithmetic keeps
+            # every tick (going via float seconds loses one now and then)
+            value = value // timedelta(milliseconds=10)
         super().__init__(value)
 
     def pythonize(self) -> Optional[timedelta]:  # type: ignore
